@@ -27,7 +27,8 @@
                                  region feature spanning the file, `core_location` texts read back to the bases of
                                  the `proto_core` features (also `regionFeatureOK`)
     write_succeeds_partial       (also `writable`) `write_to_genbank` does not raise
-    motif_locations_partial      one-part leader/tail texts are rewritten to the text of the moved part
+    motif_locations_partial      leader/tail texts of any number of parts are rewritten part by part to the text
+                                 of the moved parts, which reads back and covers the same bases
     references_resolve_partial   the written feature a rewritten reference points at is the image of the
                                  original referent
   Left to the executable spec on the real output (correspondence): `Record.from_genbank` itself (executed, not
@@ -193,20 +194,29 @@ theorem extract_reloads_partial (rd : RegionData) (rec : BioRecord) (w : Written
   exact ⟨h1, h2, h3, h4, written_oneRegion rd rec w h hwf htags hspan hreg, h5⟩
 
 /-- Leader and tail locations of precursor peptides (`_adjust_motif`): a `leader_location` / `tail_location`
-    text naming one part is rewritten to the text of that part moved into file coordinates (behind the part of
-    the file that comes from before the origin, if the part lies after it); the new text reads back
-    (`location_from_string`) to the moved part, and the moved part covers the same bases.
-    Remaining: texts naming several parts (a leader or tail cut by an intron) — `build_location_from_others`
-    re-joins them; covered by the executable `motifLocsOk`. -/
-theorem motif_locations_partial (t : String) (p : Part) (rd : RegionData) (L : Int) (hL : 0 < L)
-    (ht : locFromString t = some (.simple p))
-    (hplain : rd.crossesOrigin = false → rd.start ≤ p.lo ∧ p.hi ≤ rd.end)
+    text naming any number of parts is rewritten part by part — each part by itself is moved into file coordinates,
+    behind the stretch of the file that comes from before the origin if (and only if) that part lies after the
+    origin, so a leader or tail with the origin inside it comes out in one piece —, abutting parts are joined
+    (`build_location_from_others`), the new text reads back (`location_from_string`) and covers exactly the same
+    bases.  Hypotheses: every part lies inside the region on one side of the origin; the moved parts are in
+    ascending order (forward strand) or in descending order (reverse strand), none empty.
+    Falsified by seeded change C12_3 (one decision per location, taken from its minimum coordinate). -/
+theorem motif_locations_partial (t : String) (l : Loc) (rd : RegionData) (L : Int) (hL : 0 < L)
+    (ht : locFromString t = some l) (hne : l.parts ≠ [])
+    (hmono : AscParts (l.parts.map (motifPart rd L)) ∨ DescParts (l.parts.map (motifPart rd L)))
+    (hplain : rd.crossesOrigin = false → ∀ p ∈ l.parts, rd.start ≤ p.lo ∧ p.hi ≤ rd.end)
     (hcross : rd.crossesOrigin = true → 0 < rd.end ∧ rd.end ≤ rd.start ∧ rd.start < L ∧
-      ((rd.start ≤ p.lo ∧ p.hi ≤ L) ∨ (0 ≤ p.lo ∧ p.hi ≤ rd.end ∧ p.lo < p.hi))) :
-    ∃ p', adjustMotifLoc t rd L = .ok (locToString (.simple p')) ∧
-      locFromString (locToString (.simple p')) = some (.simple p') ∧ SameBases L rd (.simple p) (.simple p') :=
-  ⟨_, adjustMotifLoc_single t p rd L ht, locFromString_locToString _ (by simp [Loc.parts]),
-    motif_single_sameBases p rd L hL hplain hcross⟩
+      ∀ p ∈ l.parts, (rd.start ≤ p.lo ∧ p.hi ≤ L) ∨ (0 ≤ p.lo ∧ p.hi ≤ rd.end ∧ p.lo < p.hi)) :
+    ∃ l', adjustMotifLoc t rd L = .ok (locToString l') ∧ locFromString (locToString l') = some l' ∧
+      SameBases L rd l l' :=
+  adjustMotifLoc_parts t l rd L hL ht hne hmono hplain hcross
+
+/-- the region `[800:200)` of a circular record of 1000 bases -/
+def exOver : RegionData := { start := 800, «end» := 200, cands := [], subs := [] }
+/-- a leader with the origin inside it, `join{[988:1000](+), [0:18](+)}`, comes out in one piece … -/
+example : (adjustMotifLoc "join{[988:1000](+), [0:18](+)}" exOver 1000).toOption = some "[188:218](+)" := by decide
+/-- … on the reverse strand as two parts in transcription order -/
+example : (adjustMotifLoc "join{[0:12](-), [982:1000](-)}" exOver 1000).toOption = some "join{[200:212](-), [182:200](-)}" := by decide
 
 /-- The write does not raise: under `wfInput` every `offset_location` call of the extraction succeeds (features
     after the origin, features over the origin, core locations), and with every dictionary lookup of
